@@ -198,16 +198,21 @@ def impl_server(case, root, k):
     if fobj is None:
         return None
     opened = list(fobj.contents_split)
-    impl.did_change(srv, path, [lsp_change(c) for c in case["changes"]])
+    # document versions as a client counts them: 1 at didOpen, +1 per didChange, starting over when the document is opened again
+    impl.did_change(srv, path, [lsp_change(c) for c in case["changes"]], version=2)
     res = list(srv.workspace[path].contents_split)
     # the editor discards the buffer (close without saving) and opens the document again: the client now holds the disk text
     impl.did_close(srv, path)
     impl.did_open(srv, path)
     fobj = srv.workspace.get(path)
     reopened = list(fobj.contents_split) if fobj is not None else None
+    # the same edits typed again in the new session (version 2 again): the same text must result
+    impl.did_change(srv, path, [lsp_change(c) for c in case["changes"]], version=2)
+    fobj = srv.workspace.get(path)
+    again = list(fobj.contents_split) if fobj is not None else None
     impl.did_close(srv, path)
     os.remove(path)
-    return opened, res, reopened
+    return opened, res, reopened, again
 
 
 # ----------------------------------------------------------------------------- model
@@ -364,7 +369,10 @@ def run_server_cases(ctx, cases):
                 ctx.report("C02:server-open-failed", "didOpen did not register the document",
                            {"kind": "counterexample", "input": case})
                 continue
-            opened, got, reopened = res
+            opened, got, reopened, again = res
+            if again != got:
+                ctx.report("C02:second-session", "the same edits applied again after closing and re-opening the document give another text",
+                           {"kind": "counterexample", "input": case, "implementation": again, "oracle": got, "stream": "server"})
             if reopened != opened:
                 ctx.report("C02:reopen-stale", "after closing without saving and opening again the server does not hold the disk text",
                            {"kind": "counterexample", "input": case, "implementation": reopened, "oracle": opened, "stream": "server"})
